@@ -13,13 +13,14 @@ CONSTANTS Depth,       \* bound on the number of fetcher calls in a behaviour
           MaxList,     \* largest advertisement
           Record       \* TRUE: keep the history (simulation); FALSE: exhaustive checking
 
-VARIABLES st, held, kh, bad, hist, n
-vars == <<st, held, kh, bad, hist, n>>
+VARIABLES st, held, kh, bad, hist, n,
+          lag          \* lag[k] = t: the fetcher has been told that (k, t) was put, the store's index does not list it yet
+vars == <<st, held, kh, bad, hist, n, lag>>
 
 Lists == {L \in SUBSET (Key \X Type) : Cardinality(L) \in 1..MaxList}
 NoHeld == [k \in Key |-> 0]
 
-Init == st = Init0 /\ held = NoHeld /\ kh = NoHeld /\ bad = {} /\ hist = <<>> /\ n = 0
+Init == st = Init0 /\ held = NoHeld /\ kh = NoHeld /\ bad = {} /\ hist = <<>> /\ n = 0 /\ lag = NoHeld
 
 \* one fetcher call: x0 = step record without result
 Step(x0, newkh) ==
@@ -35,21 +36,33 @@ Base(ev) == [ev |-> ev, s |-> st, r |-> 0, kh |-> 0, h |-> 0, list |-> {}, held 
              rg |-> 0, e |-> 0]
 
 DoAddKeys == \E h \in Holder, L \in Lists :
-                Step([Base("AddKeys") EXCEPT !.h = h, !.list = L], held) /\ UNCHANGED held
-DoNextKeys == Step(Base("NextKeys"), kh) /\ UNCHANGED held
+                Step([Base("AddKeys") EXCEPT !.h = h, !.list = L], held) /\ UNCHANGED <<held, lag>>
+DoNextKeys == Step(Base("NextKeys"), kh) /\ UNCHANGED <<held, lag>>
 \* the store finished writing a fetched (or uploaded) record, then tells the fetcher
 DoStorePut == \E k \in Key, t \in Type :
                 /\ held[k] # t
                 /\ held' = [held EXCEPT ![k] = t]
+                /\ lag' = [lag EXCEPT ![k] = 0]
                 /\ Step([Base("NotifyPut") EXCEPT !.k = k, !.t = t, !.held = held'], [kh EXCEPT ![k] = t])
+\* the same, but the store's index (the held map the fetcher is shown with the next advertisement) lists the
+\* record only later: between PutLocalRecord and AddLocalRecordAsStored advertisements see the OLD held map
+DoStorePutLagging == \E k \in Key, t \in Type :
+                /\ held[k] # t /\ lag[k] = 0
+                /\ lag' = [lag EXCEPT ![k] = t]
+                /\ Step([Base("NotifyPut") EXCEPT !.k = k, !.t = t], [kh EXCEPT ![k] = t]) /\ UNCHANGED held
+\* the index catches up (no fetcher call)
+DoIndex == \E k \in Key : /\ lag[k] # 0
+                          /\ held' = [held EXCEPT ![k] = lag[k]]
+                          /\ lag' = [lag EXCEPT ![k] = 0]
+                          /\ UNCHANGED <<st, kh, bad, hist, n>>
 DoNotifyEarly == \E e \in st.og :
-                Step([Base("NotifyEarly") EXCEPT !.k = e.k, !.t = e.t], kh) /\ UNCHANGED held
-DoSetRange == \E r \in 1..NK : r # st.range /\ Step([Base("SetRange") EXCEPT !.rg = r], kh) /\ UNCHANGED held
-DoSetFarthest == \E k \in Key : Step([Base("SetFarthest") EXCEPT !.k = k], kh) /\ UNCHANGED held
-DoExpireFetch == \E e \in st.og \ st.ogx : Step([Base("ExpireFetch") EXCEPT !.e = e], kh) /\ UNCHANGED held
-DoExpirePending == \E e \in st.tf \ st.tfx : Step([Base("ExpirePending") EXCEPT !.e = e], kh) /\ UNCHANGED held
+                Step([Base("NotifyEarly") EXCEPT !.k = e.k, !.t = e.t], kh) /\ UNCHANGED <<held, lag>>
+DoSetRange == \E r \in 1..NK : r # st.range /\ Step([Base("SetRange") EXCEPT !.rg = r], kh) /\ UNCHANGED <<held, lag>>
+DoSetFarthest == \E k \in Key : Step([Base("SetFarthest") EXCEPT !.k = k], kh) /\ UNCHANGED <<held, lag>>
+DoExpireFetch == \E e \in st.og \ st.ogx : Step([Base("ExpireFetch") EXCEPT !.e = e], kh) /\ UNCHANGED <<held, lag>>
+DoExpirePending == \E e \in st.tf \ st.tfx : Step([Base("ExpirePending") EXCEPT !.e = e], kh) /\ UNCHANGED <<held, lag>>
 
-Next == DoAddKeys \/ DoNextKeys \/ DoStorePut \/ DoNotifyEarly \/ DoSetRange \/ DoSetFarthest
+Next == DoAddKeys \/ DoNextKeys \/ DoStorePut \/ DoStorePutLagging \/ DoIndex \/ DoNotifyEarly \/ DoSetRange \/ DoSetFarthest
         \/ DoExpireFetch \/ DoExpirePending
 Spec == Init /\ [][Next]_vars
 
